@@ -1,1 +1,70 @@
-(* placeholder *) From Klepto Require Import Keys.
+(* C10  Key discrimination: different calls never share a key; typed keys separate types. *)
+From Klepto Require Import PyVal KFacts Keys KeygenFacts KeyProps.
+
+(* equal key material => all non-ignored arguments equal (the contrapositive of "calls that bind
+   unequal values to a non-ignored parameter get different keys") *)
+Theorem C10_material_discriminates : forall sig ignored b1 b2 c1 c2, wf_sig sig -> wf_call c1 -> wf_call c2 ->
+  bind sig c1 = Some b1 -> bind sig c2 = Some b2 ->
+  spec_args sig ignored b1 = spec_args sig ignored b2 ->
+  (forall n, spec_map sig ignored b1 n = spec_map sig ignored b2 n) ->
+  (forall n, in_sig sig n = true -> selected sig ignored n = false -> kget (b_named b1) n = kget (b_named b2) n) /\
+  (ig_starstar ignored = false -> forall n, in_sig sig n = false -> str_in n (ig_names1 ignored) = false ->
+     kget (b_extra_kw b1) n = kget (b_extra_kw b2) n) /\
+  (ig_star ignored = false -> length (b_extra_pos b1) = length (b_extra_pos b2) /\
+     forall j, nat_in (length (sig_explicit sig) + j) (ign_idx ignored) = false ->
+               nth_error (b_extra_pos b1) j = nth_error (b_extra_pos b2) j).
+Proof. exact spec_discriminates. Qed.
+
+(* non-flat keymaps (typed or not): equal keys => equal key material *)
+Theorem C10_nonflat : forall sig ignored k order1 order2 c1 c2 b1 b2, k_flat k = false ->
+  wf_sig sig -> wf_call c1 -> wf_call c2 -> order_ok sig ignored order1 -> order_ok sig ignored order2 ->
+  bind sig c1 = Some b1 -> bind sig c2 = Some b2 ->
+  keymap_raw k (fst (keygen_ord sig ignored order1 c1)) (snd (keygen_ord sig ignored order1 c1)) =
+  keymap_raw k (fst (keygen_ord sig ignored order2 c2)) (snd (keygen_ord sig ignored order2 c2)) ->
+  spec_args sig ignored b1 = spec_args sig ignored b2 /\ forall n, spec_map sig ignored b1 n = spec_map sig ignored b2 n.
+Proof. exact key_discriminates_nonflat. Qed.
+
+(* flat keymaps when the signature has no variadic positionals *)
+Theorem C10_flat_no_varargs : forall sig ignored k order1 order2 c1 c2 b1 b2,
+  k_flat k = true -> k_typed k = false -> s_varargs sig = false ->
+  wf_sig sig -> wf_call c1 -> wf_call c2 -> order_ok sig ignored order1 -> order_ok sig ignored order2 ->
+  bind sig c1 = Some b1 -> bind sig c2 = Some b2 ->
+  keymap_raw k (fst (keygen_ord sig ignored order1 c1)) (snd (keygen_ord sig ignored order1 c1)) =
+  keymap_raw k (fst (keygen_ord sig ignored order2 c2)) (snd (keygen_ord sig ignored order2 c2)) ->
+  spec_args sig ignored b1 = spec_args sig ignored b2 /\ forall n, spec_map sig ignored b1 n = spec_map sig ignored b2 n.
+Proof. exact key_discriminates_flat_no_varargs. Qed.
+
+(* flat keymaps with a sentinel configured *)
+Theorem C10_flat_sentinel : forall sig ignored k order1 order2 c1 c2 b1 b2,
+  k_flat k = true -> k_typed k = false -> k_mark k = true ->
+  wf_sig sig -> wf_call c1 -> wf_call c2 -> order_ok sig ignored order1 -> order_ok sig ignored order2 ->
+  bind sig c1 = Some b1 -> bind sig c2 = Some b2 ->
+  ~ In VSent (spec_args sig ignored b1) -> ~ In VSent (spec_args sig ignored b2) ->
+  keymap_raw k (fst (keygen_ord sig ignored order1 c1)) (snd (keygen_ord sig ignored order1 c1)) =
+  keymap_raw k (fst (keygen_ord sig ignored order2 c2)) (snd (keygen_ord sig ignored order2 c2)) ->
+  spec_args sig ignored b1 = spec_args sig ignored b2 /\ forall n, spec_map sig ignored b1 n = spec_map sig ignored b2 n.
+Proof. exact key_discriminates_flat_sentinel. Qed.
+
+(* typed=True: the types of the arguments are part of the key, so equal values of different type
+   (1, 1.0, True) are separated *)
+Theorem C10_typed_separates : forall a1 a2, types_of a1 <> types_of a2 -> forall k m1 m2,
+  k_typed k = true -> k_flat k = false -> keymap_raw k a1 m1 <> keymap_raw k a2 m2.
+Proof. exact typed_separates_types. Qed.
+
+(* The guard in the statement is necessary, not a defect: without a sentinel a flat key cannot tell
+   f('y', 1) from f(y=1) for def f( *a, **k ); with the sentinel it can; and untyped keys treat
+   1, 1.0 and True alike while typed keys do not. *)
+Definition sgv := mkSig [] true [] true.
+Example C10_guard_is_necessary :
+  key_of sgv [] (mkK false true false) ([VStr [121]; VInt 1], []) = key_of sgv [] (mkK false true false) ([], [([121], VInt 1)]) /\
+  key_of sgv [] (mkK false true true) ([VStr [121]; VInt 1], []) <> key_of sgv [] (mkK false true true) ([], [([121], VInt 1)]) /\
+  py_eqb (key_of sgv [] (mkK false true true) ([VInt 1; VInt 2], [])) (key_of sgv [] (mkK false true true) ([VFlt 4; VInt 2], [])) = true /\
+  py_eqb (key_of sgv [] (mkK true true true) ([VInt 1; VInt 2], [])) (key_of sgv [] (mkK true true true) ([VFlt 4; VInt 2], [])) = false /\
+  py_eqb (key_of sgv [] (mkK true true true) ([VInt 1; VInt 2], [])) (key_of sgv [] (mkK true true true) ([VBool true; VInt 2], [])) = false.
+Proof. repeat split; vm_compute; congruence. Qed.
+
+Print Assumptions C10_material_discriminates.
+Print Assumptions C10_nonflat.
+Print Assumptions C10_flat_no_varargs.
+Print Assumptions C10_flat_sentinel.
+Print Assumptions C10_typed_separates.
